@@ -40,6 +40,8 @@ type SCfg struct {
 	HeadAgeS int `json:"head_age_s,omitempty"`
 	// StepS: spacing in seconds of the headers up to S (default 1)
 	StepS int `json:"step_s,omitempty"`
+	// FreshAfterS: headers above S are recent even when c[S] is old (the chain resumed)
+	FreshAfterS bool `json:"fresh_after_s,omitempty"`
 }
 
 func (c SCfg) String() string {
@@ -318,11 +320,11 @@ func (s *CapSub) verifier() func(context.Context, *vk.H) error {
 // ---------- world ----------
 
 type spawned struct {
-	Kind   string // deliver | headcall | syncwait
-	A      string
-	H      *vk.H // delivered header
-	Honest bool  // delivered header is the honest chain's header and valid at delivery time
-	call   *vk.Call[*vk.H]
+	Kind      string // deliver | headcall | syncwait
+	A         string
+	H         *vk.H // delivered header
+	Honest    bool  // delivered header is the honest chain's header and valid at delivery time
+	call      *vk.Call[*vk.H]
 	collected bool
 }
 
@@ -400,6 +402,10 @@ func genChain(c SCfg, now time.Time) vk.Chain {
 		}
 	}
 	start := now.Add(-age).Add(-time.Duration(s-1) * step)
+	if c.FreshAfterS && age > 10*time.Second && int(s) <= len(steps) {
+		// the chain halted after c[S] and resumed recently: c[S+1] is 4s old
+		steps[s-1] = age - 4*time.Second
+	}
 	return vk.GenChain(vk.ChainSpec{N: c.N, Start: start, Step: step, Steps: steps, R: c.R})
 }
 
